@@ -40,9 +40,6 @@ EXTENDS Integers, Sequences, FiniteSets, TLC, AddressRules
 CONSTANTS AsImplemented_FromStrNoSuffix, AsImplemented_AddNodeNoSuffix, AsImplemented_Port65535
 
 Addr == {"a", "p65535"}
-Producers == {"Display", "SockToString", "FourWords", "ToMultiaddr", "BootEncode"}
-Consumers == {"FromStr", "FromFourWords", "AddNode", "MultiaddrFrom", "Dial", "BootDecode"}
-
 Emits == [p \in Producers |->
   CASE p = "Display" -> {"sockWords"}      \* "ip:port (w-w-w-w)"; plain sock when no words exist
     [] p = "SockToString" -> {"sock"}
@@ -57,10 +54,6 @@ Accepts == [c \in Consumers |->
     [] c = "MultiaddrFrom" -> {"sock", "sockWords"}
     [] c = "Dial" -> {"sock", "sockWords"}
     [] c = "BootDecode" -> {"words"}]
-
-Wiring == {<<"Display", "FromStr">>, <<"Display", "AddNode">>, <<"Display", "Dial">>,
-           <<"SockToString", "Dial">>, <<"SockToString", "MultiaddrFrom">>, <<"ToMultiaddr", "FromStr">>,
-           <<"FourWords", "FromFourWords">>, <<"FourWords", "FromStr">>, <<"BootEncode", "BootDecode">>}
 
 (* consumers that turn what they read into a NetworkAddress and render it again (the string travels on) *)
 Relays == [c \in Consumers |-> IF c \in {"FromStr", "MultiaddrFrom", "FromFourWords"} THEN {"Display", "FourWords"} ELSE {}]
